@@ -48,16 +48,29 @@ const SESSION_ASSUMPTIONS: &[&str] = &[
     "extended_monitoring=false; jemalloc/telemetry/sqlite features off; debug assertions and overflow checks on",
 ];
 
-fn scenario_for(property: &str, known: &Known) -> Option<Box<dyn Scenario>> {
-    Some(match property {
-        "C01" => Box::new(props_core::c01(known)),
-        "C05" => Box::new(props_core::c05(known)),
-        "C03" => Box::new(props_core::c03(known, 3)),
-        "C06" => Box::new(props_core::c06(known, &[0, 1, 2], &["x", "x/y"])),
-        "C07" => Box::new(props_core::c07(known, false)),
-        "C08" => Box::new(props_core::c08(known)),
-        "C13" => Box::new(props_session::c13(known, true)),
-        "C17" => Box::new(props_session::c17(known, true)),
+/// The scenario a replay file was written by (`replay.scenario` in the file); `thorough` selects the
+/// thorough tier's alphabet where the tiers differ.
+fn scenario_for(property: &str, name: &str, thorough: bool, known: &Known) -> Option<Box<dyn Scenario>> {
+    Some(match (property, name) {
+        ("C01", _) => Box::new(props_core::c01(known)),
+        ("C05", _) => Box::new(props_core::c05(known)),
+        ("C03", _) => Box::new(props_core::c03(known, 3)),
+        ("C06", "locks-and-data") => Box::new(props_core::c06(known, &[0, 1], &["x", "x/y"], true)),
+        ("C06", _) => Box::new(props_core::c06(known, &[0, 1, 2], &["x", "x/y"], false)),
+        ("C07", "locks-at-session-end") => Box::new(props_core::c07_locks(known)),
+        ("C07", _) => Box::new(props_core::c07(known, thorough)),
+        ("C08", _) => Box::new(props_core::c08(known)),
+        ("C11", "end-to-end") => Box::new(c11e2e::scenario()),
+        ("C12", _) => {
+            c12::init_role_configs();
+            Box::new(c12::scenario(known.open_for("C12")))
+        }
+        ("C13", "core-alphabet") => Box::new(props_session::c13(known, false)),
+        ("C13", "serve-pipelined") => Box::new(c13serve::scenario(known, true)),
+        ("C13", _) => Box::new(props_session::c13(known, true)),
+        ("C17", "adversary-core") => Box::new(props_session::c17(known, false)),
+        ("C17", "adversary-key-shapes") => Box::new(props_session::c17_keys(known)),
+        ("C17", _) => Box::new(props_session::c17(known, true)),
         _ => return None,
     })
 }
@@ -65,7 +78,7 @@ fn scenario_for(property: &str, known: &Known) -> Option<Box<dyn Scenario>> {
 fn main() {
     let args: Vec<String> = std::env::args().collect();
     if args.len() < 2 {
-        eprintln!("usage: wbmc-core <Cxx> [quick|thorough] | <Cxx> --replay <file>");
+        eprintln!("usage: wbmc-core <Cxx> [quick|thorough] | <Cxx> --replay <file> [thorough]");
         std::process::exit(2);
     }
     real::init_base_config();
@@ -84,7 +97,10 @@ fn main() {
     let property = args[1].as_str();
     let known = Known::load();
     if args.get(2).map(|s| s.as_str()) == Some("--replay") {
-        let Some(sc) = scenario_for(property, &known) else {
+        let file: serde_json::Value = std::fs::read_to_string(&args[3]).ok().and_then(|t| serde_json::from_str(&t).ok()).unwrap_or_default();
+        let name = file["replay"]["scenario"].as_str().unwrap_or("").to_owned();
+        let thorough = args.get(4).map(|s| s.as_str()) == Some("thorough");
+        let Some(sc) = scenario_for(property, &name, thorough, &known) else {
             eprintln!("no replayable scenario for {property}");
             std::process::exit(2);
         };
@@ -371,12 +387,17 @@ fn main() {
             "model_checking",
             vec![(
                 "locks".into(),
-                Box::new(props_core::c06(&known, &[0, 1, 2], &["x", "x/y"])),
+                Box::new(props_core::c06(&known, &[0, 1, 2], &["x", "x/y"], false)),
                 Tiered { quick: lim(7, 3, true, 40), thorough: lim(10, 5, true, 600) },
+                "graph",
+            ), (
+                "locks-and-data".into(),
+                Box::new(props_core::c06(&known, &[0, 1], &["x", "x/y"], true)),
+                Tiered { quick: lim(6, 3, true, 30), thorough: lim(9, 5, true, 400) },
                 "graph",
             )],
             CORE_ASSUMPTIONS,
-            "every sequence of lock/acquireLock/releaseLock/disconnect/connect by three clients over two nested keys up to the completed depth, de-duplicated by a complete state snapshot; acquire receivers are polled after every request; distinct_nontrivial counts distinct (request kind, answer class) pairs",
+            "second scenario: the same by two clients together with set / delete / pdelete of the locked keys and their children (locks are advisory and live beside the data); first: every sequence of lock/acquireLock/releaseLock/disconnect/connect by three clients over two nested keys up to the completed depth, de-duplicated by a complete state snapshot; acquire receivers are polled after every request; distinct_nontrivial counts distinct (request kind, answer class) pairs",
         ),
         "C07" => run_scenarios(
             "C07",
